@@ -136,7 +136,7 @@ theorem textOkList_map (g : Val → JVal) (xs : List Val) (h : ∀ x ∈ xs, tex
     rw [List.map_cons, textOkList, h x (by simp), ih (fun y hy => h y (by simp [hy]))]; rfl
 
 theorem toDictSlot_none_none (S : Schema) (E : Enums) (cs : KeyCase) (f : FieldD) (hid sel : Bool) (hs : HS f hid sel)
-    (h : slotOk S f hid sel .none = true) : toDictSlot S E cs false f hid sel .none = Option.none := by
+    (h : slotOk' S f hid sel .none = true) : toDictSlot S E cs false f hid sel .none = Option.none := by
   cases hts : toDictSlot S E cs false f hid sel .none with
   | none => rfl
   | some j =>
@@ -158,7 +158,7 @@ theorem toDictSlot_none_none (S : Schema) (E : Enums) (cs : KeyCase) (f : FieldD
 
 /-- what a leaf slot writes is JSON text-stable -/
 theorem txt_leaf (S : Schema) (E : Enums) (cs : KeyCase) (f : FieldD) (hid sel : Bool) (v : Val) (hj : FJ f)
-    (hl : isLeafVal v = true) (hn : v ≠ .none) (h : slotOk S f hid sel v = true) (j : JVal)
+    (hl : isLeafVal v = true) (hn : v ≠ .none) (h : slotOk' S f hid sel v = true) (j : JVal)
     (hjj : toDictSlot S E cs false f hid sel v = some j) : textOk j = true := by
   rw [slotOk_leaf S f hid sel v hl hn] at h
   simp only [Bool.and_eq_true, Bool.not_eq_true'] at h
@@ -201,7 +201,7 @@ theorem txt_leaf (S : Schema) (E : Enums) (cs : KeyCase) (f : FieldD) (hid sel :
 theorem txt_list_flat (S : Schema) (E : Enums) (cs : KeyCase) (f : FieldD) (hid sel : Bool) (xs : List Val) (hj : FJ f)
     (hs : HS f hid sel)
     (hnu : ¬ ((f.ty == PType.message) = true ∧ f.wraps = Option.none ∧ ∃ c, f.kind = .user c))
-    (h : slotOk S f hid sel (.list xs) = true) (j : JVal)
+    (h : slotOk' S f hid sel (.list xs) = true) (j : JVal)
     (hjj : toDictSlot S E cs false f hid sel (.list xs) = some j) : textOk j = true := by
   obtain ⟨hh, hsel, hr, hmap, ho, hw, hit⟩ := list_common S f hid sel xs hj hs h
   subst hh; subst hsel
@@ -272,7 +272,7 @@ theorem keyJ_strKeys (ks : List Val) (h : ∀ k ∈ ks, ∃ s, k = Val.str s) : 
 
 theorem txt_dict_flat (S : Schema) (E : Enums) (cs : KeyCase) (f : FieldD) (hid sel : Bool) (ks vs : List Val) (hj : FJ f)
     (hs : HS f hid sel) (hv : (f.mapV == PType.message) = false)
-    (h : slotOk S f hid sel (.dict ks vs) = true) (j : JVal)
+    (h : slotOk' S f hid sel (.dict ks vs) = true) (j : JVal)
     (hjj : toDictSlot S E cs false f hid sel (.dict ks vs) = some j) : textOk j = true := by
   obtain ⟨hh, hsel, hty, hks, hvs⟩ := dict_common S f hid sel ks vs hj hs h
   subst hh; subst hsel
@@ -304,11 +304,11 @@ theorem kvs_strKeys (S : Schema) (E : Enums) (cs : KeyCase) (fs : List FieldD) (
 mutual
 theorem txt_kvs (S : Schema) (E : Enums) (cs : KeyCase) (hS : SchemaOk S E cs) (fs : List FieldD)
     (cur : List (Option Nat)) (hfs : ∀ f ∈ fs, fieldJsonOk f = true) :
-    ∀ (vs : List Val) (idx : Nat), slotsOk S fs cur idx vs = true →
+    ∀ (vs : List Val) (idx : Nat), slotsOk' S fs cur idx vs = true →
       textOkList ((toDictKVs S E cs false fs cur idx vs).map (·.2)) = true
   | [], _, _ => by rw [toDictKVs]; rfl
   | a :: as, idx, h => by
-    rw [slotsOk] at h
+    rw [slotsOk'] at h
     simp only [Bool.and_eq_true] at h
     have ih := txt_kvs S E cs hS fs cur hfs as (idx + 1) h.2
     rw [toDictKVs]
@@ -328,7 +328,7 @@ termination_by structural vs => vs
 
 theorem txt_slot (S : Schema) (E : Enums) (cs : KeyCase) (hS : SchemaOk S E cs) (f : FieldD) (hid sel : Bool)
     (hj : FJ f) (hs : HS f hid sel) :
-    ∀ (v : Val), slotOk S f hid sel v = true → ∀ j, toDictSlot S E cs false f hid sel v = some j → textOk j = true
+    ∀ (v : Val), slotOk' S f hid sel v = true → ∀ j, toDictSlot S E cs false f hid sel v = some j → textOk j = true
   | .ph, h, j, hjj => by
     have := (rt_ph S E cs f hid sel hj h).1 j hjj
     have := this.2.2.2.2.1
@@ -373,7 +373,7 @@ theorem txt_slot (S : Schema) (E : Enums) (cs : KeyCase) (hS : SchemaOk S E cs) 
   | .msg c sl ow unk cur, h, j, hjj => by
     rw [slotOk_msg] at h
     simp only [Bool.and_eq_true, Bool.not_eq_true', beq_iff_eq, Option.isNone_iff_eq_none] at h
-    obtain ⟨⟨⟨⟨⟨⟨hh, hty⟩, hw⟩, hr⟩, hk⟩, _⟩, hbody⟩ := h
+    obtain ⟨⟨⟨⟨⟨hh, hty⟩, hw⟩, hr⟩, hk⟩, hbody⟩ := h
     obtain ⟨_, _, _, hsl⟩ := bodyOk_spec S c sl unk cur hbody
     subst hh
     have hm : (f.ty == PType.message) = true := by simp [hty]
@@ -413,7 +413,7 @@ end
 
 /-- **`to_dict` output is JSON serialisable, and the JSON text reads back as the same dict** -/
 theorem toDict_text (S : Schema) (E : Enums) (cs : KeyCase) (hS : SchemaOk S E cs) (c : Nat) (sl : List Val)
-    (ow : Bool) (unk : Bytes) (cur : List (Option Nat)) (hwt : wellTyped S (.msg c sl ow unk cur) = true) :
+    (ow : Bool) (unk : Bytes) (cur : List (Option Nat)) (hwt : wellTyped' S (.msg c sl ow unk cur) = true) :
     isJson (toDict S E cs false (.msg c sl ow unk cur)) = true ∧
     jsonText (toDict S E cs false (.msg c sl ow unk cur)) = some (toDict S E cs false (.msg c sl ow unk cur)) := by
   rw [wellTyped_msg] at hwt
